@@ -1,9 +1,54 @@
 package props
 
-import "testing"
+import (
+	"fmt"
+	"os"
+	"path/filepath"
+	"sync/atomic"
+	"testing"
+	"time"
+)
 
 // curT is the worker's testing.T (synctest bubbles need one).
 var curT *testing.T
+
+// runStart is the real time of the last sign of progress of the current run
+// (0: no run in progress); the worker's watchdog reads it.
+var runStart atomic.Int64
+
+// Tick tells the watchdog that a long run is still making progress.
+func Tick() {
+	if runStart.Load() != 0 {
+		runStart.Store(time.Now().UnixNano())
+	}
+}
+
+// journalDir, when set, is where engines that may crash the whole process
+// (corrupted files) record what they are about to do.
+var journalDir string
+var journalID int
+
+// Journal records the case and the evaluation about to be executed; a worker
+// that dies leaves it behind and the supervisor turns it into a violation.
+func Journal(c *Case, what string) {
+	if journalDir == "" {
+		return
+	}
+	jc := filepath.Join(journalDir, fmt.Sprintf("journal-%d.json", journalID))
+	if _, err := os.Stat(jc); err != nil {
+		_ = SaveCase(jc, c)
+	}
+	_ = os.WriteFile(filepath.Join(journalDir, fmt.Sprintf("journal-%d.what", journalID)), []byte(what), 0644)
+}
+
+// JournalDone removes the journal of a finished run.
+func JournalDone() {
+	if journalDir == "" {
+		return
+	}
+	os.Remove(filepath.Join(journalDir, fmt.Sprintf("journal-%d.json", journalID)))
+	os.Remove(filepath.Join(journalDir, fmt.Sprintf("journal-%d.what", journalID)))
+}
 
 // Spec tells a worker process what to do (file named by VERIF_SPEC).
 type Spec struct {
